@@ -345,3 +345,5 @@ def run(program, rep, tier):
         if o.rule == 'C12.paths' and ('StaticResourceMap' in o.site):
             o.rule = 'C17.unwrap'
             rep.obs.append(o)
+            if o.verdict == 'inconclusive':
+                rep.errors.append(f'{o.rule} at {o.site}: {o.why}')
